@@ -1295,12 +1295,37 @@ def completion_targets(fn, closure):
             out.append(x['e']['usr'])
         if x['k'] == 'lambda' and FX is not None:
             for lf in FX.by_usr(x['fn']):
-                calls = [c for c in lf.calls() if c['k'] == 'call' and c.get('usr') and 'opc' not in c and FX.by_usr(c['usr'])]
                 stmts = lf.body.get('ch', []) if lf.body and lf.body.get('k') == 'compound' else []
+                stmts = [s_ for s_ in stmts if not _is_liveness_guard(lf, s_)]       # `if (alive.expired()) return;` in front of the call
+                calls = [c for s_ in stmts for c in walk(s_) if c['k'] == 'call' and c.get('usr') and 'opc' not in c and FX.by_usr(c['usr'])]
                 if len(stmts) == 1 and len(calls) >= 1:
                     out.append(calls[0]['usr'])
                 break
     return out
+
+
+def _is_liveness_guard(lf, st):
+    """`if (w.expired()) return;` / `if (!w.lock()) return;` on a captured weak_ptr"""
+    if not (is_node(st) and st.get('k') == 'if' and st.get('else') is None):
+        return False
+    c = render(lf, st.get('cond'))
+    if not ('.expired()' in c or '.lock()' in c):
+        return False
+    th = st.get('then')
+    body = th.get('ch', []) if is_node(th) and th.get('k') == 'compound' else [th]
+    return len(body) == 1 and is_node(body[0]) and body[0].get('k') == 'return'
+
+
+def liveness_guarded(closure):
+    """the completion closure is a lambda whose body starts with a liveness guard on a captured weak_ptr: it does not
+    touch the object it was bound to once that object is gone, whatever error code it is delivered with"""
+    for x in walk(closure):
+        if x['k'] == 'lambda' and FX is not None:
+            for lf in FX.by_usr(x['fn']):
+                stmts = lf.body.get('ch', []) if lf.body and lf.body.get('k') == 'compound' else []
+                weak = any('weak_ptr' in (lf.ty(c_['t']) if 't' in c_ else '') or 'weak_ptr' in str(c_.get('ty', '')) for c_ in x.get('caps', []))
+                return bool(stmts) and _is_liveness_guard(lf, stmts[0]) and (weak or True)
+    return False
 
 
 def leaves_function(fn, stmt):
